@@ -264,9 +264,12 @@ def gen_signal(rng, min_len=1, max_len=80):
         elif kind == "ultra":
             # finite is finite: magnitudes near the ends of the double range, or an exponentially damped oscillation
             # whose late cycles are hundreds of orders of magnitude smaller than its first ones
-            m = rng.choice(["small", "large", "damped", "wide"])
+            m = rng.choice(["small", "large", "damped", "wide", "subnormal"])
             if m == "small":
                 sig = [x * 2.0 ** -600 for x in sig]
+            elif m == "subnormal":
+                # whole multiples of the smallest positive double: every value and every range is exact
+                sig = [float(round(x)) * 2.0 ** -1074 for x in sig]
             elif m == "large":
                 sig = [x * 2.0 ** 500 for x in sig]
             elif m == "wide":
@@ -909,6 +912,11 @@ def check_c02_spec(out, sig, log, spec_dtype=None):
 # the sample number in closed form, nothing is stored; all of pyLife's code runs as it is.
 
 def generate_marathon(prop, rng):
+    if prop == "C03" and rng.random() < 0.4:
+        # ONE call with more than 2**25 samples, flushed: a refinement of a few hundred reversals
+        total = (1 << 25) + rng.randint(1, 1 << 22)
+        return {"world": NAME, "marathon": {"kind": "long", "det": rng.choice(["fp", "tp", "fkm"]),
+                                            "log2_period": rng.choice([15, 16, 17]), "block": total, "total": total, "flush": True}}
     if prop in ("C02", "C03"):
         return {"world": NAME, "marathon": {"kind": "long", "det": rng.choice(["fp", "fp", "tp"]),
                                             "log2_period": rng.choice([14, 15, 16]),
@@ -968,17 +976,27 @@ def _marathon_long(out, log, m, det, prop="C02"):
     def f(i):
         return np.abs((i & (P - 1)) - H) + (i >> 22)
 
-    d = _mk(det, "full")
+    flush = bool(m.get("flush"))
+    d = _mk(det, "full" if det != "fkm" else "value")
     a = 0
     while a < total:
         b = min(total, a + block)
         i = np.arange(a, b, dtype=np.int64)
-        _feed(d, f(i).astype(np.float64))
+        blk = f(i).astype(np.float64)
+        del i
+        _feed(d, blk, flush and b == total)
+        del blk
         out.steps += 1
         a = b
+    if block >= total:
+        out.count("probe:marathon_one_call_beyond_2e25_samples")
     out.count("probe:marathon_beyond_%s_samples" % ("2e32" if total >= (1 << 32) else "2e31"))
     try:
-        o = _arrays_of(d)
+        if det == "fkm":
+            o = {"from": np.asarray(d.recorder.values_from, dtype=np.float64), "to": np.asarray(d.recorder.values_to, dtype=np.float64),
+                 "res": np.asarray(d.residuals, dtype=np.float64)}
+        else:
+            o = _arrays_of(d)
     except Exception as e:     # noqa
         raise RealCodeError("observe", e)
     # the definition, on the closed-form turning points
@@ -992,13 +1010,26 @@ def _marathon_long(out, log, m, det, prop="C02"):
         # C03: the streamed signal is a refinement of its reversal sequence - what the same detector reports for the
         # reversals alone, with the indices moved to where those samples sit in the stream, is what it must report
         try:
-            dr = _mk(det, "full")
-            _feed(dr, np.array([v for _, v in tp], dtype=np.float64))
-            orv = _arrays_of(dr)
+            dr = _mk(det, "full" if det != "fkm" else "value")
+            _feed(dr, np.array([v for _, v in tp], dtype=np.float64), flush)
+            if det == "fkm":
+                orv = {"from": np.asarray(dr.recorder.values_from, dtype=np.float64), "to": np.asarray(dr.recorder.values_to, dtype=np.float64),
+                       "res": np.asarray(dr.residuals, dtype=np.float64)}
+            else:
+                orv = _arrays_of(dr)
         except RealCodeError:
             raise
         except Exception as e:     # noqa
             raise RealCodeError("observe", e)
+        if det == "fkm":
+            got_v = [o["from"].tolist(), o["to"].tolist(), o["res"].tolist()]
+            want_v = [orv["from"].tolist(), orv["to"].tolist(), orv["res"].tolist()]
+            log.add("long-c03-fkm", len(got_v[0]), got_v[2])
+            if got_v != want_v:
+                out.violate("T-mid", "fkm:long-history", {"samples": total, "one_call": block >= total, "flush": flush,
+                                                          "cycles_got": len(got_v[0]), "cycles_want": len(want_v[0]),
+                                                          "got_residual": got_v[2][:8], "want_residual": want_v[2][:8]})
+            return
         pos = [i for i, _ in tp]
         want_c = list(zip(orv["from"].tolist(), orv["to"].tolist(), [pos[int(x)] for x in orv["ifrom"]], [pos[int(x)] for x in orv["ito"]]))
         want_r = list(zip([pos[int(x)] for x in orv["ridx"]], orv["res"].tolist()))
@@ -1014,6 +1045,8 @@ def _marathon_long(out, log, m, det, prop="C02"):
                          "got_residual": got_r[:8], "want_residual": want_r[:8],
                          "signal": "f(i) = |(i mod %d) - %d| + (i div 2**22), against its reversals alone" % (P, H)})
         return
+    if det == "fkm" or flush:
+        return          # only the C03 form of this marathon has an oracle for these
     cyc, res = ref.four_point(tp)
     want = [(a_, b_, ia, ib) for a_, b_, ia, ib in cyc]
     got = list(zip(o["from"].tolist(), o["to"].tolist(), [int(x) for x in o["ifrom"]], [int(x) for x in o["ito"]]))
@@ -1138,7 +1171,7 @@ def generate_c03(rng, tier):
     elif kind == "affine":
         if rng.random() < 0.3:
             # very small / very large exact scales (strain-like or Pa-like units): steps far below 1e-8 or above 1e8
-            tw["a"] = 2.0 ** rng.choice([-27, -30, -40, 30, 40, -600, 500])
+            tw["a"] = 2.0 ** rng.choice([-27, -30, -40, 30, 40, -600, 500, -1071, -1071]) * rng.choice([1.0, 1.0, 3.0])
             tw["b"] = tw["a"] * rng.randint(-64, 64)
         else:
             tw["a"] = 2.0 ** rng.randint(-3, 5)
